@@ -2,7 +2,7 @@
 
 spec/Lexer.tla is model-checked (the ordered alternation of tokenizer/mod.rs,
 transcribed, against maximal munch with recomputed positions: PosTruth, Progress,
-LongestOp, Layout, AlgEqualsRef) and every input TLC explores is replayed into
+Monotone, LongestOp, Layout, AlgEqualsRef) and every input TLC explores is replayed into
 ucglib::tokenizer::tokenize through the harness: the (typ, fragment, offset, line,
 column) list must be the one RefLex predicts.  String bodies are additionally
 evaluated (`let s = "<body>";`) and the value compared with Decode(body) byte for
@@ -139,8 +139,43 @@ def nontrivial(case):
         return True
     if len(real) == 1 and real[0][0] == "QUOTED":
         dec = real[0][7]
-        return len(dec) + 2 != real[0][2] or any(len(c) > 1 for c in dec)
+        return len(dec) + 2 != real[0][2] or any(c in POOL for c in dec)   # an escape / a non-ASCII class
     return False
+
+
+def safe_batch(h, reqs, max_crashes=3):
+    """h.batch, but a code under test that crashes on everything costs a few process
+    starts per chunk, not one per request: after max_crashes the rest is left None."""
+    out = [None] * len(reqs)
+    i = crashes = 0
+    while i < len(reqs) and crashes < max_crashes:
+        r = h.req({"op": "batch", "reqs": reqs[i:]}, timeout=h.timeout + 0.02 * (len(reqs) - i))
+        if "resps" not in r:
+            # the process died / hung somewhere in the batch: find the culprit one by one
+            while i < len(reqs) and crashes < max_crashes:
+                out[i] = h.req(reqs[i])
+                i += 1
+                if "crash" in out[i - 1]:
+                    crashes += 1
+                    break
+            continue
+        for x in r["resps"]:
+            if x.get("skipped"):
+                break
+            if "toolerr" in x:
+                raise C.ToolError("harness: " + str(x["toolerr"]))
+            out[i] = x
+            i += 1
+            if "crash" in x:
+                crashes += 1
+        if r.get("restart"):
+            try:
+                h.p.wait(timeout=5)
+            except Exception:
+                pass
+            h._kill()
+            h.restarts += 1
+    return out
 
 
 def work(h, payload):
@@ -155,16 +190,17 @@ def work(h, payload):
         src = "".join(conc)
         slots = {"tok": len(reqs)}
         reqs.append({"op": "tokens", "src": src})
-        if case["md"] == "prog":
+        if case["md"] == "prog" and case["lay"]:
             slots["parse"] = len(reqs)
             reqs.append({"op": "parse", "src": src})
             reqs.append({"op": "parse", "src": "".join(spell(plain_layout(case, tabs), ref))})
         if case["md"] == "bodies" and case["r"] == "ok" and len(case["x"]) == 2 \
-                and case["x"][0][0] == "QUOTED":
+                and case["x"][0][0] == "QUOTED" and case["x"][0][2] == len(conc):
+            # the whole input is one string literal (not a literal followed by a comment)
             slots["eval"] = len(reqs)
             reqs.append({"op": "eval", "src": "let s = " + src + ";"})
         cases.append((case, ref, conc, src, slots))
-    resps = h.batch(reqs)
+    resps = safe_batch(h, reqs)
     st = collections.Counter()
     bad, known, samples, hashes = [], [], [], []
     altered = not alter
@@ -172,6 +208,9 @@ def work(h, payload):
         st["cases"] += 1
         st["md:" + case["md"]] += 1
         r = resps[slots["tok"]]
+        if r is None:
+            st["not_run_after_crashes"] += 1
+            continue
         st["requests"] += 1
         desc = {"kind": "tokens", "mode": case["md"], "src": src, "abstract": case}
         exp = expected_tokens(case, conc, ref)
@@ -221,9 +260,12 @@ def work(h, payload):
             continue
         st["agree"] += 1
         if len(samples) < 2 and nontrivial(case) and (n % 97 == 0 or case["md"] != "toks"):
-            samples.append({"src": src, "predicted": desc["expect"]["toks"]})
+            samples.append({"mode": case["md"], "src": src, "predicted": desc["expect"]["toks"]})
         if "parse" in slots:
             a, b = resps[slots["parse"]], resps[slots["parse"] + 1]
+            if a is None or b is None:
+                st["not_run_after_crashes"] += 1
+                continue
             st["requests"] += 2
             pd = {"kind": "parse", "mode": "prog", "src": src, "plain": reqs[slots["parse"] + 1]["src"]}
             if "crash" in a or "crash" in b:
@@ -240,7 +282,14 @@ def work(h, payload):
                 st["parse_rejected_both"] += 1
         if "eval" in slots:
             v = resps[slots["eval"]]
+            if v is None:
+                st["not_run_after_crashes"] += 1
+                continue
             st["requests"] += 1
+            if "crash" in v:
+                bad.append(("evaluation-crash", {"kind": "eval", "mode": "bodies", "src": reqs[slots["eval"]]["src"],
+                                                 "expect": exp[0][1], "obs": v, "abstract": case}))
+                continue
             want = exp[0][1]
             got = None
             try:
@@ -305,8 +354,9 @@ class Stream:
         self.bad.extend(res["bad"][:max(0, 20 - len(self.bad))])
         self.nknown += res["nknown"]
         self.known.extend(res["known"][:max(0, 5 - len(self.known))])
-        if len(self.samples) < 40:
-            self.samples.extend(res["samples"])
+        for smp in res["samples"]:      # a few per generator mode, for the evidence
+            if sum(1 for x in self.samples if x["mode"] == smp["mode"]) < 3:
+                self.samples.append(smp)
         self.hashes.update(res["hashes"])
 
     def end_run(self):
@@ -321,29 +371,37 @@ class Stream:
 
 # ---- replay of one stored case -------------------------------------------------
 
+def replay_case(h, case):
+    """Re-run one stored case; True iff the code agrees with the stored prediction."""
+    if case["kind"] == "tokens":
+        r = h.req({"op": "tokens", "src": case["src"]})
+        exp = [(t[0], t[1], t[2], t[3], tuple(t[4])) for t in case["expect"]["toks"]]
+        if "crash" in r:
+            return False
+        if case.get("abstract", {}).get("mk"):
+            return not (r.get("ok") and position_check(case["src"], r["toks"]))
+        if case["expect"]["r"] != "ok":
+            return not r.get("ok")
+        return bool(r.get("ok")) and same_tokens(exp, r["toks"]) and not position_check(case["src"], r["toks"])
+    if case["kind"] == "parse":
+        a = h.req({"op": "parse", "src": case["src"]})
+        b = h.req({"op": "parse", "src": case["plain"]})
+        return "crash" not in a and "crash" not in b and bool(a.get("ok")) == bool(b.get("ok")) \
+            and a.get("stmts") == b.get("stmts")
+    if case["kind"] == "eval":
+        v = h.req({"op": "eval", "src": case["src"]})
+        try:
+            return v["out"]["val"]["fs"][0]["val"]["s"] == case["expect"]
+        except Exception:
+            return False
+    raise C.ToolError("unknown kind of case %r" % case.get("kind"))
+
+
 def do_replay(hp, path):
     case = json.load(open(path))["case"]
-    h = C.Harness(hp)
-    ok = False
+    h = C.Harness(hp, timeout=60.0)
     try:
-        if case["kind"] == "tokens":
-            r = h.req({"op": "tokens", "src": case["src"]})
-            exp = [(t[0], t[1], t[2], t[3], tuple(t[4])) for t in case["expect"]["toks"]]
-            if case["expect"]["r"] != "ok":
-                ok = "crash" not in r and not r.get("ok")
-            else:
-                ok = bool(r.get("ok")) and same_tokens(exp, r["toks"]) and not position_check(case["src"], r["toks"])
-        elif case["kind"] == "parse":
-            a = h.req({"op": "parse", "src": case["src"]})
-            b = h.req({"op": "parse", "src": case["plain"]})
-            ok = "crash" not in a and "crash" not in b and bool(a.get("ok")) == bool(b.get("ok")) \
-                and a.get("stmts") == b.get("stmts")
-        elif case["kind"] == "eval":
-            v = h.req({"op": "eval", "src": case["src"]})
-            try:
-                ok = v["out"]["val"]["fs"][0]["val"]["s"] == case["expect"]
-            except Exception:
-                ok = False
+        ok = replay_case(h, case)
     finally:
         h.close()
     print("replay %s: %s" % (path, "agrees with the specification" if ok else "DISAGREES"))
@@ -385,9 +443,9 @@ def main(tier, replay=None):
                                     "{none, SP, LF, CRLF, TAB, comment} x {-, trailing comment}; tokenizer machine stepwise"),
         ("Lexer_bodies4", None, None, "exhaustive: all string bodies of length <= 4 over a 12-character alphabet "
                                       "(a n r t \\ \" @ SP LF, 2/3/4-byte UTF-8)"),
-        ("Lexer_simtok", 40 if quick else 1500, 400, "simulation: random token sequences <= 40 with random layout "
+        ("Lexer_simtok", 40 if quick else 500, 400, "simulation: random token sequences <= 40 with random layout "
                                                      "(SP TAB FF LF CRLF, comments ended by LF/CRLF/end of input)"),
-        ("Lexer_simprog", 40 if quick else 1500, 400, "simulation: random programs (38 statement forms) <= ~40 tokens "
+        ("Lexer_simprog", 40 if quick else 500, 400, "simulation: random programs (38 statement forms) <= ~40 tokens "
                                                       "with random layout"),
         ("Lexer_simstr", 300 if quick else 20000, 60, "simulation: random string bodies <= 16 over 21 weighted characters"),
     ]
@@ -446,6 +504,16 @@ def main(tier, replay=None):
         if not (demo["unaltered_agrees"] and demo["altered_rejected"]) and not st["nbad"]:
             raise C.ToolError("binding demonstration failed: %r" % demo)
 
+    # DESIGN 3.7(3): a disagreement counts once it reproduces on a second, unhurried run
+    if S.bad:
+        h = C.Harness(hp, timeout=60.0)
+        try:
+            for key, case in S.bad:
+                if replay_case(h, case):
+                    raise C.ToolError("a disagreement did not reproduce (environmental?): %s"
+                                      % json.dumps(case, ensure_ascii=False)[:1500])
+        finally:
+            h.close()
     for key, case in S.bad:
         rep.disagree(case, key=key)
     for key, case in S.known:
@@ -456,7 +524,7 @@ def main(tier, replay=None):
     code = rep.finish()
     if extra_bad > 0:
         C.log("(%d further disagreements not listed)" % extra_bad)
-    samples = S.samples[:2] + S.samples[len(S.samples) // 2:len(S.samples) // 2 + 2] + S.samples[-2:]
+    samples = S.samples
     C.write_evidence(PID, tier, "model_checking", {
         "states": states, "transitions": trans,
         "traces_validated_against_impl": st["cases"],
@@ -475,7 +543,7 @@ def main(tier, replay=None):
         "counts": {k: st[k] for k in sorted(st) if k not in ("cases", "requests")},
         "known_finding_cases": S.nknown,
         "binding_demo": demo,
-        "invariants": ["PosTruth", "ProgressInv", "Progress", "LongestOp", "Layout", "AlgEqualsRef"],
+        "invariants": ["PosTruth", "Progress", "Monotone", "LongestOp", "Layout", "AlgEqualsRef"],
         "trusted_base": ["TLC 2.x (tla2tools 1.8.0)", "vp/c11.py spelling of abstract characters and comparison",
                          "harness token/AST/value projection (harness/src/proj.rs)"],
     }, time.time() - t0, violations=len(rep.violations), assumptions=ASSUMPTIONS)
